@@ -182,6 +182,23 @@ fn read_with<E: ZvtParser + Send>(sh: crate::sim::Sh, stream: &[u8], n: usize, s
     out
 }
 
+/// writes a command with `write_packet_with_ack` and lets the real transport read `reply` as its
+/// acknowledgement: Some(true) accepted, Some(false) failed, None blocked; plus bytes consumed
+pub fn command_acknowledged_by(reply: &[u8]) -> (Option<bool>, usize) {
+    use crate::sim::*;
+    let sh: Sh = std::rc::Rc::new(std::cell::RefCell::new(vcore::dbx::Ctx::new(vec![], vec![], 0)));
+    let s = Scripted::new(sh, reply.to_vec(), Chunking::Greedy);
+    let mut tr = io::PacketTransport { source: s.clone() };
+    let r = {
+        let mut fut = Box::pin(tr.write_packet_with_ack(&packets::EndOfDay { password: 0 }));
+        match drive(fut.as_mut()) {
+            Driven::Done(r) => Some(r.is_ok()),
+            Driven::Blocked => None,
+        }
+    };
+    (r, s.consumed())
+}
+
 fn read_dbg<E: ZvtParser + Debug + Send>(sh: crate::sim::Sh, stream: &[u8], n: usize) -> Vec<(Option<Result<String, String>>, usize)> {
     read_with::<E>(sh, stream, n, |p| format!("{p:?}"))
 }
